@@ -6,6 +6,7 @@ import FeatModel.Lemmas.C11RoundTrip
 import FeatModel.Lemmas.C11RoundTrip2
 import FeatModel.Lemmas.C11Ini
 import FeatModel.Lemmas.C11Sound2
+import FeatModel.Lemmas.C11Strict
 /-!
 # C11 — mesh/config files round-trip; malformed input is rejected without crashing
 
@@ -18,7 +19,8 @@ exactly their declared counts, tuple widths and index ranges; a missing child bl
 accepted), `parse ∘ print ∘ parse = parse` for every accepted file (hence `parse ∘ print = id` on everything the
 parser can return, and the byte-for-byte clause), `parse ∘ print = id` for explicitly described nodes, property-map
 dump/parse for trees of any depth with admissible keys/values, the number and markup layers' print/read round trips,
-graph (de)serialisation round trip, and the exact shape of the known zero-domain-node defect.
+graph (de)serialisation round trip and byte-for-byte idempotence for every graph, and the strictness of the number
+layer (exact accepted language of index tokens, rejection of suffixes and negative indices).
 Not proved (observed by correspondence + oracle only): charts and `topology="parent"` parts (not modelled, tier B: the
 model answers `Outcome.unmodelled`, so no theorem below speaks about such files); memory safety of the C++ runtime.
 -/
@@ -60,10 +62,38 @@ theorem C11.parser_mapping_complete (text : Str) (sh : Shape) (dim : Nat) (n : N
   parseMeshFile_mapping_complete h
 
 /-- Partitions: one patch per declared rank, every patch strictly increasing with elements below the declared
-    element count.  (That every rank has a `<Patch>` block in the *file* is not enforced by the reader: class K10.) -/
+    element count and together containing exactly the declared number of elements; every rank needs its `<Patch>`
+    block (`C11.partition_close_complete`, former finding K10). -/
 theorem C11.parser_soundness_partitions (text : Str) (sh : Shape) (dim : Nat) (n : Node)
     (h : parseMeshFile text = .ok sh dim n) : ∀ p ∈ n.partitions, p.wf :=
   parseMeshFile_partitions_wf text sh dim n h
+
+/-- "a mapping index ≥ the parent's entity count ⇒ reject": in an accepted file every mapping index of every mesh
+    part is an entity index of the root mesh (`MeshNodeLinker` validation, also before a topology is deducted) -/
+theorem C11.parser_mapping_in_range (text : Str) (sh : Shape) (dim : Nat) (n : Node) (m : Mesh)
+    (h : parseMeshFile text = .ok sh dim n) (hm : n.mesh = some m) :
+    ∀ np ∈ n.parts, ∀ d, ∀ i ∈ np.2.maps.getD d [], i < m.sizes.getD d 0 :=
+  parseMeshFile_mapping_lt h hm
+
+/-- the patches of an accepted partition contain exactly the declared number of elements -/
+theorem C11.parser_partition_elements (text : Str) (sh : Shape) (dim : Nat) (n : Node)
+    (h : parseMeshFile text = .ok sh dim n) : ∀ p ∈ n.partitions, (p.patches.map List.length).sum = p.ne :=
+  parseMeshFile_partition_elements h
+
+/-- a partition can only be closed when every declared rank has had its `<Patch>` block and the element count is met -/
+theorem C11.partition_close_complete (st st' : St) (line : Nat) (name : Str) (prio level : Int) (nr ne : Nat)
+    (patches : List (List Nat)) (hv : List Bool) (rest : List Frame)
+    (hs : st.stack = Frame.partition name prio level nr ne patches hv :: rest) (h : closeTop st line = .ok st') :
+    (∀ b ∈ hv, b = true) ∧ (patches.map List.length).sum = ne :=
+  ⟨(closeTop_partition_flags hs h).1, (closeTop_partition_flags hs h).2.1⟩
+
+/-- an accepted root mesh (and every accepted part with its own topology) has no entity count of zero directly
+    below a non-zero one -/
+theorem C11.parser_sizes_no_zero_below (text : Str) (sh : Shape) (dim : Nat) (n : Node)
+    (h : parseMeshFile text = .ok sh dim n) :
+    (∀ m, n.mesh = some m → zeroBelow m.sizes = false) ∧
+    (∀ np ∈ n.parts, np.2.hasTopo = true → zeroBelow np.2.sizes = false) :=
+  ⟨fun _ hm => parseMeshFile_sizes_no_zero_below h hm, parseMeshFile_parts_no_zero_below h⟩
 
 /-- the same two for the second-generation parse with a fixed mesh type -/
 theorem C11.reparse_soundness (sh sh' : Shape) (dim dim' : Nat) (text : Str) (n : Node)
@@ -114,29 +144,35 @@ theorem C11.parse_print_reparse (text : Str) (sh : Shape) (dim : Nat) (n : Node)
 /-- Mesh node with a root mesh, any number of mesh parts (mappings, optional own topology, attribute sets) and
     partitions, every supported mesh type and every size: parsing the written file gives back exactly the node.
     Hypotheses: the root mesh is well-formed, names are trimmed and free of `"`, `<`, `>`, newline, counts equal the
-    declared sizes, numbers fit their C++ types, parts/attributes are sorted by name, patches are sorted and
-    duplicate-free (`PartOkFull`, `PartitionOk`).  `_partial` w.r.t. the property: charts and `topology="parent"`
+    declared sizes, numbers fit their C++ types, parts/attributes are sorted by name, patches are sorted,
+    duplicate-free and contain the declared number of elements, no entity count of zero below a non-zero one, every
+    mapping index is an entity index of the root mesh (`PartOkFull`, `PartitionOk`, `zeroBelow`, `mapOutOfRange`).  `_partial` w.r.t. the property: charts and `topology="parent"`
     parts are outside the model. -/
 theorem C11.parse_print_node_partial (sh : Shape) (dim : Nat) (m : Mesh) (parts : List (Str × Part))
     (partitions : List Partition)
     (hs : supported sh dim dim = true) (hwf : m.wf sh dim = true) (h64 : ∀ s ∈ m.sizes, s < 2 ^ 64)
+    (hzb : zeroBelow m.sizes = false)
     (hp : ∀ np ∈ parts, PartOkFull sh dim np.1 np.2)
     (hsorted : parts.Pairwise (fun a b => strLt a.1 b.1 = true))
-    (hpt : ∀ p ∈ partitions, PartitionOk p) :
+    (hpt : ∀ p ∈ partitions, PartitionOk p)
+    (hmap : mapOutOfRange { mesh := some m, parts := parts, partitions := partitions } = false) :
     parseMeshFile (printMeshFile sh dim { mesh := some m, parts := parts, partitions := partitions })
       = .ok sh dim { mesh := some m, parts := parts, partitions := partitions } :=
-  parse_print_node_full sh dim m parts partitions hs hwf h64 hp hsorted hpt
+  parse_print_node_full sh dim m parts partitions hs hwf h64 hzb hp hsorted hpt hmap
 
 /-- byte-for-byte clause for the same class: writing the parsed result reproduces the first output -/
 theorem C11.print_parse_print_node_partial (sh : Shape) (dim : Nat) (m : Mesh) (parts : List (Str × Part))
     (partitions : List Partition)
     (hs : supported sh dim dim = true) (hwf : m.wf sh dim = true) (h64 : ∀ s ∈ m.sizes, s < 2 ^ 64)
+    (hzb : zeroBelow m.sizes = false)
     (hp : ∀ np ∈ parts, PartOkFull sh dim np.1 np.2)
     (hsorted : parts.Pairwise (fun a b => strLt a.1 b.1 = true))
-    (hpt : ∀ p ∈ partitions, PartitionOk p) (sh' : Shape) (dim' : Nat) (n' : Node)
+    (hpt : ∀ p ∈ partitions, PartitionOk p)
+    (hmap : mapOutOfRange { mesh := some m, parts := parts, partitions := partitions } = false)
+    (sh' : Shape) (dim' : Nat) (n' : Node)
     (h : parseMeshFile (printMeshFile sh dim { mesh := some m, parts := parts, partitions := partitions }) = .ok sh' dim' n') :
     printMeshFile sh' dim' n' = printMeshFile sh dim { mesh := some m, parts := parts, partitions := partitions } :=
-  print_parse_print_node sh dim m parts partitions hs hwf h64 hp hsorted hpt sh' dim' n' h
+  print_parse_print_node sh dim m parts partitions hs hwf h64 hzb hp hsorted hpt hmap sh' dim' n' h
 
 /-- a node without root mesh (mesh-part / partition files): the written root markup carries no mesh type, so the
     type-detecting entry point answers `notype`, and the parse with the known type gives the node back -/
@@ -183,6 +219,28 @@ theorem C11.readIndex_range (s : Str) (n : Nat) (h : readIndex s = some n) : n <
 
 theorem C11.readInt_range (s : Str) (z : Int) (h : readInt s = some z) : -(2 ^ 31 : Int) ≤ z ∧ z < 2 ^ 31 :=
   FeatModel.C11.readInt_range h
+
+/-- strictness (fixed `String::parse`): the accepted index tokens are exactly `+?D+` with value below 2^64 -/
+theorem C11.readIndex_language (s : Str) (n : Nat) :
+    readIndex s = some n ↔ ∃ ds, ds ≠ [] ∧ (∀ c ∈ ds, isDigit c = true) ∧ (trim s = ds ∨ trim s = '+' :: ds) ∧
+      digitsVal 0 ds = n ∧ n < 2 ^ 64 :=
+  readIndex_eq_some_iff s n
+
+/-- every token with a non-digit suffix (`3x`, `1.5`, `0x10`) is rejected -/
+theorem C11.readIndex_suffix_reject (ds suffix : Str) (hne : ds ≠ []) (hd : ∀ c ∈ ds, isDigit c = true)
+    (hs : suffix ≠ []) (hs0 : ∀ c, suffix.head? = some c → isDigit c = false)
+    (htrim : trim (ds ++ suffix) = ds ++ suffix) : readIndex (ds ++ suffix) = none :=
+  FeatModel.C11.readIndex_suffix_reject ds suffix hne hd hs hs0 htrim
+
+/-- a negative number is never accepted as an index (no wrap-around) -/
+theorem C11.readIndex_negative_reject (s : Str) (h : (trim s).head? = some '-') : readIndex s = none :=
+  readIndex_neg s h
+
+/-- a printed coordinate followed by anything that is not a digit is rejected -/
+theorem C11.readQ_suffix_reject (x : Rat) (suffix : Str) (hs : suffix ≠ [])
+    (hs0 : ∀ c, suffix.head? = some c → isDigit c = false)
+    (htrim : trim (showQ x ++ suffix) = showQ x ++ suffix) : readQ (showQ x ++ suffix) = none :=
+  FeatModel.C11.readQ_suffix_reject x suffix hs hs0 htrim
 
 /-- a printed row of indices is tokenised and read back exactly (any indentation) -/
 theorem C11.index_row_roundtrip (k : Nat) (ns : List Nat) (h : ∀ n ∈ ns, n < 2 ^ 64) :
@@ -239,10 +297,13 @@ theorem C11.graph_default_roundtrip (k : Nat) :
       = some { numImage := k, domainPtr := [], imageIdx := [] } :=
   FeatModel.C11.graph_default_roundtrip k
 
-/-- The byte-for-byte clause FAILS for a graph with zero domain nodes whose pointer array is allocated
-    (`Graph(0, k, 0)`): 48 bytes are written, the re-read graph writes 40 (recorded in FINDINGS_C11.md, class 8).
-    This is a theorem about the model of the code as it is. -/
-theorem C11.graph_zero_domain_not_idempotent (k : Nat) :
+/-- byte-for-byte clause for EVERY graph (fixed `Graph::serialize`: the pointer array of a graph without domain nodes
+    is not stored), in particular for `Graph(0, k, 0)`, the former finding K8 -/
+theorem C11.graph_bytes_idempotent_all (g : RawGraph) :
+    (RawGraph.deserialize g.serialize).map RawGraph.serialize = some g.serialize :=
+  graph_serialize_idempotent_any g
+
+theorem C11.graph_zero_domain_idempotent (k : Nat) :
     (RawGraph.deserialize (RawGraph.serialize { numImage := k, domainPtr := [0], imageIdx := [] })).map RawGraph.serialize
-      ≠ some (RawGraph.serialize { numImage := k, domainPtr := [0], imageIdx := [] }) :=
-  FeatModel.C11.graph_zero_domain_not_idempotent k
+      = some (RawGraph.serialize { numImage := k, domainPtr := [0], imageIdx := [] }) :=
+  FeatModel.C11.graph_zero_domain_idempotent k
